@@ -764,7 +764,7 @@ def stream_relabel_lb(ctx):
     m = gh()
     for _ in range(ctx.n(1500, 15000)):
         n = r.randint(7, 11)
-        U1 = g_connected(r, n)
+        _, U1 = g_connected(r, n)
         U2 = relabel_sym(r, U1)
         with np.errstate(all="ignore"), warnings.catch_warnings():
             warnings.simplefilter("ignore")
